@@ -453,7 +453,7 @@ impl TestCaseConfig {
                 output.push(format!(
                     "wait: {{timeout: {}, path: {}}}",
                     duration,
-                    path.to_string_lossy(),
+                    yaml_flow_scalar(&path.to_string_lossy()),
                 ))
             } else {
                 output.push(format!("wait: {}", duration))
@@ -462,8 +462,7 @@ impl TestCaseConfig {
         if !self.environment.is_empty() {
             let mut envvars = vec![];
             for (key, value) in self.environment.iter() {
-                // TODO: this will bereak break if the value contains double quotes => use `quote-string` crate?
-                envvars.push(format!("{}: \"{}\"", key, value))
+                envvars.push(format!("{}: {}", key, yaml_double_quoted(value)))
             }
             output.push(format!("environment: {{{}}}", envvars.join(", ")));
         }
@@ -473,6 +472,26 @@ impl TestCaseConfig {
     pub fn get_skip_document_code(&self) -> i32 {
         self.skip_document_code
             .unwrap_or(DEFAULT_SKIP_DOCUMENT_CODE)
+    }
+}
+
+/// Renders the value as double-quoted YAML scalar (backslashes and double
+/// quotes are escaped), so that it can be embedded in a one-line flow mapping
+fn yaml_double_quoted(value: &str) -> String {
+    format!("\"{}\"", value.replace('\\', "\\\\").replace('"', "\\\""))
+}
+
+/// Renders the value as-is if it is a plain word (as before), otherwise as
+/// double-quoted YAML scalar
+fn yaml_flow_scalar(value: &str) -> String {
+    let plain = !value.is_empty()
+        && value
+            .chars()
+            .all(|ch| ch.is_ascii_alphanumeric() || matches!(ch, '_' | '.' | '/' | '-'));
+    if plain {
+        value.to_string()
+    } else {
+        yaml_double_quoted(value)
     }
 }
 
